@@ -11,7 +11,10 @@ import VueJsx.Base
 
 namespace VueJsx
 
-def FUEL : Nat := 48
+/-- `MAX_TYPE_RESOLUTION_DEPTH` -/
+def FUEL : Nat := 64
+
+def tooDeep : String := "Error: Type is circular or nested too deeply to be resolved."
 
 /-- runtime type entry: `some "String"` … or `none` for the `null` value -/
 abbrev RT := Option String
@@ -67,7 +70,7 @@ def nUnionType (ts : List Node) : Node := .mk .tsUnion [] [nList ts]
 /-- `resolve_string_or_union_strings` -/
 def resolveStrings (fuel : Nat) (st : St) (ty : Node) : List String × St :=
   match fuel with
-  | 0 => ([], st.panic "stack overflow: cyclic type alias (index keys)")
+  | 0 => ([], st.err tooDeep)
   | fuel + 1 =>
     match ty with
     | .mk .tsLitType _ [.mk .str (v :: _) _] => ([v], st)
@@ -129,7 +132,7 @@ def natOfNumAtom (s : String) : Nat :=
 /-- `resolve_indexed_access` -/
 def resolveIndexed (fuel : Nat) (st : St) (obj index : Node) : Option Node × St :=
   match fuel with
-  | 0 => (none, st.panic "stack overflow: cyclic type alias (indexed access)")
+  | 0 => (none, st.err tooDeep)
   | fuel + 1 =>
     let pack (props : List Node) : Option Node :=
       match props with
@@ -166,7 +169,7 @@ def resolveIndexed (fuel : Nat) (st : St) (obj index : Node) : Option Node × St
 /-- `resolve_type_elements` -/
 def resolveElements (fuel : Nat) (st : St) (ty : Node) : List Node × St :=
   match fuel with
-  | 0 => ([], st.panic "stack overflow: cyclic type declarations")
+  | 0 => ([], st.err tooDeep)
   | fuel + 1 =>
     let unresolvable := "Error: Unresolvable type."
     match ty with
@@ -242,7 +245,7 @@ def memberRuntime (members : List Node) : List RT :=
 /-- `infer_runtime_type` -/
 def inferRuntime (fuel : Nat) (st : St) (ty : Node) : List RT × St :=
   match fuel with
-  | 0 => ([], st.panic "stack overflow: cyclic type alias (runtime type)")
+  | 0 => ([], st.err tooDeep)
   | fuel + 1 =>
     match ty with
     | .mk .tsKeyword [k] _ =>
